@@ -180,6 +180,8 @@ def make_case(ctx, g):
     docs = []
     for _ in range(g.rng.randint(1, 2)):
         d, _scopes = b.random_document(n_records=g.rng.randint(1, 6))
+        if g.chance(0.15) and b.lookalike(d):
+            flags.add("lookalike-names")
         docs.append(d)
     roots = list(docs)
     for _ in range(g.rng.randint(0, 4)):
